@@ -41,6 +41,9 @@ func init() {
 			"f.slot.Set(internal.WriteEvent, f.writeReactor.onWrite)", "f.slot.Set(internal.ReadEvent, f.writeReactor.onWrite)", "C01-R"},
 		mutant{"reactor not armed with this operation's callback", "file.go",
 			"func (f *file) asyncWrite(b []byte, writeAll bool, cb AsyncCallback) {\n\tf.writeReactor.init(b, writeAll, cb)\n", "func (f *file) asyncWrite(b []byte, writeAll bool, cb AsyncCallback) {\n", "C01-R2b"},
+		mutant{"at-limit write parks before the reactor is armed (multicast)", "multicast/peer.go",
+			"\tp.write.b = b\n\tp.write.addr = addr\n\tp.write.fn = fn\n\n\tif p.ioc.Dispatched < sonic.MaxCallbackDispatch {\n\t\tp.asyncWriteNow(b, addr, func(err error, n int) {\n\t\t\tp.ioc.Dispatched++\n\t\t\tfn(err, n)\n\t\t\tp.ioc.Dispatched--\n\t\t})\n\t} else {\n\t\tp.scheduleWrite(fn)\n\t}",
+			"\tif p.ioc.Dispatched >= sonic.MaxCallbackDispatch {\n\t\tp.scheduleWrite(fn)\n\t\treturn\n\t}\n\n\tp.write.b = b\n\tp.write.addr = addr\n\tp.write.fn = fn\n\n\tp.asyncWriteNow(b, addr, func(err error, n int) {\n\t\tp.ioc.Dispatched++\n\t\tfn(err, n)\n\t\tp.ioc.Dispatched--\n\t})", "C01-R2b"},
 		mutant{"interest not removed before dispatch (write)", "internal/poll_linux.go",
 			"\t\t\t_ = p.DelWrite(slot)\n\t\t\tslot.Handlers[WriteEvent](nil)", "\t\t\tslot.Handlers[WriteEvent](nil)", "C01-R3"},
 		mutant{"stale batch entries dispatched (read)", "internal/poll_linux.go",
@@ -731,6 +734,7 @@ func checkArming(c *Ctx, e *e2, handler *ssa.Function, field *types.Var) {
 		}
 	}
 	reported := map[*ssa.Function]bool{}
+	unarmedSite := map[*ssa.Function]ssa.Instruction{}
 	for changed := true; changed; {
 		changed = false
 		for _, fn := range p.Funcs {
@@ -769,6 +773,9 @@ func checkArming(c *Ctx, e *e2, handler *ssa.Function, field *types.Var) {
 						}
 						return
 					}
+					if _, seen := unarmedSite[fn]; !seen {
+						unarmedSite[fn] = in
+					}
 					if _, already := needs[fn]; !already {
 						needs[fn] = i
 						changed = true
@@ -788,7 +795,8 @@ func checkArming(c *Ctx, e *e2, handler *ssa.Function, field *types.Var) {
 		}
 		callersN := len(p.callers(fn))
 		exported := fn.Object() != nil && fn.Object().Exported()
-		if (exported || callersN == 0) && !reported[fn] {
+		_, hasUnarmed := unarmedSite[fn]
+		if (exported || callersN == 0) && (!reported[fn] || hasUnarmed) {
 			what := "can park the operation"
 			if !isInstaller {
 				what = "reaches a function that can park the operation"
